@@ -637,6 +637,79 @@ def slot_zero(rng, k=0):
     return 'scen:slotzero', u.u.lines(1) + u2.u.lines(2), ops, meta_of(ops, u.attr_ids(), setup)
 
 
+def neg_index_hole(rng, k=0):
+    """a rack with a hole right before its last module; the last module is taken out by a negative index, by
+    value or by its positive index: the rack never keeps a trailing hole"""
+    u = U()
+    u.attr(1010)
+    u.type(3100, 50, int(TC.ship), {1010: 100})
+    u.type(3200, 51, int(TC.module), {1010: 5})
+    rack = ['high', 'mid', 'low'][k % 3]
+    cls = 'mod' + rack
+    ops = base_world(1) + ['new 10 ship 3100 1 0', 'new 12 %s 3200 1 0' % cls, 'new 13 %s 3200 1 0' % cls,
+                           'new 14 %s 3200 1 0' % cls, 'slot 1 ship 10']
+    setup = len(ops)
+    ops += ['rappend 1 %s 12' % rack, 'rplace 1 %s 2 13' % rack, 'get 10 1010']
+    ops += [['rremove 1 %s idx -1' % rack], ['rfree 1 %s idx -1' % rack], ['rremove 1 %s idx 2' % rack],
+            ['rremove 1 %s item 13' % rack]][(k // 3) % 4]
+    ops += ['rappend 1 %s 14' % rack, 'get 10 1010', 'rinsert 1 %s 3 13' % rack, 'rremove 1 %s idx -1' % rack,
+            'rremove 1 %s idx -1' % rack, 'get 10 1010']
+    return 'scen:negidx', u.lines(), ops, meta_of(ops, u.attr_ids(), setup)
+
+
+def stale_no_effects(rng, k=0):
+    """an item that runs no effect at all still has values that depend on others: a capped attribute of an
+    offline module whose cap is changed by an implant, a projected-upon attribute of an effect-less ship whose
+    resistance attribute is changed by a rig"""
+    A, M, K, R, S = 1010, 1002, 1000, 1003, 1001
+    u = U()
+    for a in (K, R, S):
+        u.attr(a)
+    u.attr(M, default=None)
+    u.attr(A, default=None, mx=M)
+    u.effect(int(EffectId.online), EC.online)
+    u.effect(2001, EC.passive, [U.mod(F.domain, D.ship, M, OP.post_mul, K)])
+    u.effect(2002, EC.target, [U.mod(F.item, D.target, A, OP.post_percent, S)], resist=R)
+    u.effect(2003, EC.passive, [U.mod(F.item, D.ship, R, OP.post_mul, K)])
+    u.type(3100, 50, int(TC.ship), {A: 100, M: 1000, R: Fraction(1, 2)})
+    u.type(3200, 51, int(TC.module), {A: 8, M: 8}, [int(EffectId.online)])
+    u.type(3201, 51, int(TC.module), {S: 50}, [2002], default=2002)
+    u.type(3500, 53, int(TC.implant), {K: Fraction(1, 2)}, [2001])
+    u.type(3600, 52, None, {K: Fraction(1, 2)}, [2003])
+    ops = base_world(2) + ['new 10 ship 3100 1 0', 'new 11 ship 3100 1 0', 'new 12 modhigh 3200 1 0',
+                           'new 13 modhigh 3201 3 0', 'new 20 implant 3500 1 0', 'new 21 rig 3600 1 0',
+                           'slot 1 ship 10', 'slot 2 ship 11', 'rappend 1 high 12', 'rappend 2 high 13']
+    setup = len(ops)
+    if k % 2 == 0:
+        ops += ['get 12 %d' % A, 'sadd 1 implants 20', 'get 12 %d' % A, 'srm 1 implants 20', 'get 12 %d' % A]
+    else:
+        ops += ['target 13 10', 'get 10 %d' % A, 'sadd 1 rigs 21', 'get 10 %d' % A, 'srm 1 rigs 21', 'get 10 %d' % A]
+    return 'scen:noeffects', u.lines(), ops, meta_of(ops, u.attr_ids(), setup)
+
+
+def late_listing(rng, k=0):
+    """a fit that already carries its ship and a running command burst enters a solar system (or moves to
+    another one): its own ship is boosted like everybody else's"""
+    BID, BVAL = int(AttrId.warfare_buff_1_id), int(AttrId.warfare_buff_1_value)
+    T1 = 1010
+    u = U()
+    for a in (T1, BID, BVAL):
+        u.attr(a)
+    burst = int(BUFF_EFFECTS[0])
+    u.effect(burst, EC.active)
+    u.buff(10, F.item, T1, OP.post_percent, AG.maximum)
+    u.type(3100, 50, int(TC.ship), {T1: 1000})
+    u.type(3200, 51, int(TC.module), {BID: 10, BVAL: 20}, [burst], default=burst)
+    ops = ['solsys 1', 'solsys 2', 'fit 1 1', 'fit 2 2', 'source 1 1', 'source 2 1', 'new 10 ship 3100 1 0',
+           'new 11 ship 3100 1 0', 'new 12 modhigh 3200 3 0', 'slot 1 ship 10', 'slot 2 ship 11', 'rappend 1 high 12']
+    setup = len(ops)
+    ops += ['ssadd 1 1', 'get 10 %d' % T1]
+    if k % 2:
+        ops += ['ssadd 1 2', 'fladd 1 1', 'fladd 1 2', 'get 11 %d' % T1]
+    ops += ['ssrm 1 1', 'get 10 %d' % T1, 'ssadd 2 1', 'get 10 %d' % T1, 'state 12 2', 'get 10 %d' % T1]
+    return 'scen:latelisting', u.lines(), ops, meta_of(ops, u.attr_ids(), setup)
+
+
 COMMANDS = {'solsys', 'fit', 'new', 'source', 'ssadd', 'ssrm', 'ssclear', 'slot', 'sadd', 'srm', 'sclear', 'skilldel',
             'rappend', 'rinsert', 'rplace', 'requip', 'rremove', 'rfree', 'rclear', 'charge', 'state', 'target',
             'mode', 'level', 'fladd', 'flrm', 'flclear', 'get', 'read', 'keys', 'm_mod', 'm_pymod', 'm_effect',
@@ -645,14 +718,14 @@ COMMANDS = {'solsys', 'fit', 'new', 'source', 'ssadd', 'ssrm', 'ssclear', 'slot'
 SCENARIOS = [cap_moves, resist_moves, chain_over_projection, burst_charge, buff_tie, retarget_reload, slot_index,
              propulsion, ancillary, propulsion_batch, rejected_assignment, autocharge_state, burst_nobase,
              refused_join, unloaded_container, drone_target, self_skillrq,
-             nested_autocharge, resist_mix, slot_zero]
+             nested_autocharge, resist_mix, slot_zero, neg_index_hole, stale_no_effects, late_listing]
 
 
 def scenarios(rng, tier):
     n = 3 if tier == 'quick' else 60
     out = []
     for fn in SCENARIOS:
-        for k in range(max(n, {burst_charge: 6, propulsion_batch: 4, burst_nobase: 4, drone_target: 4, resist_mix: 5}.get(fn, n))):
+        for k in range(max(n, {burst_charge: 6, propulsion_batch: 4, burst_nobase: 4, drone_target: 4, resist_mix: 5, neg_index_hole: 4}.get(fn, n))):
             name, ul, ops, meta = fn(rng, k)
             bad = [l for l in ops if l.split()[0] not in COMMANDS]
             assert not bad, 'scenario %s uses unknown commands %r' % (name, bad)
